@@ -26,6 +26,10 @@
   * `lseShift_shift_is_max`, `lseShift_sum_bounds` (§2): when the `-inf` stand-in is below all entries and the
     maximum is declared finite, the shift is the maximum of the list, every exponent is `≤ 0` and the summed
     quantity lies in `[1, length]` — the reason for the shift (no overflow), invisible in the value.
+  * C08n (normalised message, `BOCD.step` ends with `logMessage := row`): the `*_lse` corollaries that mention the
+    message (`message_forward_lse`, `message_eq_joint_lse`, `evidence_eq_joint_lse`) carry the restated texts of
+    `Props/C08.lean`; new `message_normalised_lse`, `sim_run_lse`, `run_logMessage_eq_row` (every carrier),
+    `sim_history` (the repair is invisible in every field but the message after ANY history).
   * §5: further items of review C08 §4 — history normal form, `argmax` bound (every carrier), MAP rule in
     posterior terms, Bayes' identity for the conjugate Gaussian update (prior × likelihood = predictive ×
     posterior, pointwise).
@@ -249,15 +253,27 @@ theorem row_normalised_lse (c : Cfg ℝ) {s : State ℝ} (h : (BOCD.machine (shi
     (s.row.map Real.exp).sum = 1 ∧ s.row.length = s.n + 1 :=
   row_normalised _ (lseSpec_shiftFns E hz logC) c h
 
-/-- Adams–MacKay forward recursion along a run, linear space -/
+/-- every message is `exp` of the row and sums to one, in every reachable state (C08n, normalised message) -/
+theorem message_normalised_lse (c : Cfg ℝ) {s : State ℝ} (h : (BOCD.machine (shiftFns E logC) c).Reachable s) :
+    msg s = s.row.map Real.exp ∧ (msg s).sum = 1 ∧ (msg s).length = s.n + 1 :=
+  message_normalised _ (lseSpec_shiftFns E hz logC) c h
+
+/-- the repair changes no field but the message: model run = ghost run (unnormalised message) up to the
+log-evidence shift of the log-message -/
+theorem sim_run_lse (c : Cfg ℝ) (xs : List ℝ) :
+    let f := shiftFns E logC
+    runUpd f c xs = { BOCDU.runUpd f c xs with
+      logMessage := (BOCDU.runUpd f c xs).logMessage.map (· - Real.log ((msg (BOCDU.runUpd f c xs)).sum)) } :=
+  sim_run _ (lseSpec_shiftFns E hz logC) c xs
+
+/-- Adams–MacKay forward recursion (with normalisation) along a run, linear space -/
 theorem message_forward_lse (c : Cfg ℝ) (h : ℝ) (h0 : 0 < h) (h1 : h < 1)
     (hH : c.logH = Real.log h) (h1H : c.log1mH = Real.log (1 - h)) (hpv : 0 < c.priorVar) (hdv : 0 < c.dataVar)
     (xs : List ℝ) (v : ℝ) :
     let f := shiftFns E logC
     msg (runUpd f c []) = [1] ∧
     msg (runUpd f c (xs ++ [v])) =
-        (List.zipWith (fun m p => m * p * h) (msg (runUpd f c xs)) ((List.range (xs.length + 1)).map (piAt f c xs v))).sum ::
-          List.zipWith (fun m p => m * p * (1 - h)) (msg (runUpd f c xs)) ((List.range (xs.length + 1)).map (piAt f c xs v)) ∧
+        normalise (fwd h (msg (runUpd f c xs)) ((List.range (xs.length + 1)).map (piAt f c xs v))) ∧
     (runUpd f c (xs ++ [v])).row =
       (msg (runUpd f c (xs ++ [v]))).map (fun m => Real.log (m / (msg (runUpd f c (xs ++ [v]))).sum)) :=
   message_forward _ (lseSpec_shiftFns E hz logC) c h h0 h1 hH h1H hpv hdv xs v
@@ -281,15 +297,22 @@ theorem message_eq_joint_lse (c : Cfg ℝ) (h : ℝ) (h0 : 0 < h) (h1 : h < 1)
     (xs : List ℝ) (r : ℕ) (hr : r < (msg (runUpd (shiftFns E logC) c xs)).length) :
     (msg (runUpd (shiftFns E logC) c xs))[r] =
       (((allConfigs xs.length).filter (fun bs => decide (runLen bs = r))).map
-        (jointRev (shiftFns E logC) c h xs.reverse)).sum :=
+        (jointRev (shiftFns E logC) c h xs.reverse)).sum /
+        ((allConfigs xs.length).map (jointRev (shiftFns E logC) c h xs.reverse)).sum :=
   message_eq_joint _ (lseSpec_shiftFns E hz logC) c h h0 h1 hH h1H hpv hdv xs r hr
 
-/-- the normaliser is the evidence -/
+/-- the evidence: sum of the unnormalised (ghost) message, factor between the ghost's and the model's message, and
+(one step) the model's normaliser `Σ fwd = P(x_{1:t+1}) / P(x_{1:t})` — see `evidence_eq_joint` -/
 theorem evidence_eq_joint_lse (c : Cfg ℝ) (h : ℝ) (h0 : 0 < h) (h1 : h < 1)
     (hH : c.logH = Real.log h) (h1H : c.log1mH = Real.log (1 - h)) (hpv : 0 < c.priorVar) (hdv : 0 < c.dataVar)
     (xs : List ℝ) :
-    (msg (runUpd (shiftFns E logC) c xs)).sum =
-      ((allConfigs xs.length).map (jointRev (shiftFns E logC) c h xs.reverse)).sum :=
+    let f := shiftFns E logC
+    (msg (BOCDU.runUpd f c xs)).sum = ((allConfigs xs.length).map (jointRev f c h xs.reverse)).sum ∧
+    msg (BOCDU.runUpd f c xs) =
+      (msg (runUpd f c xs)).map (· * ((allConfigs xs.length).map (jointRev f c h xs.reverse)).sum) ∧
+    ∀ v : ℝ, (fwd h (msg (runUpd f c xs)) ((List.range (xs.length + 1)).map (piAt f c xs v))).sum *
+        ((allConfigs xs.length).map (jointRev f c h xs.reverse)).sum =
+      ((allConfigs (xs ++ [v]).length).map (jointRev f c h (xs ++ [v]).reverse)).sum :=
   evidence_eq_joint _ (lseSpec_shiftFns E hz logC) c h h0 h1 hH h1H hpv hdv xs
 
 /-- **C08 headline for the executed routine, model-independent reference.**  With the max-shifted `logsumexp`
@@ -514,6 +537,11 @@ theorem run_history (f : Fns α) (c : Cfg α) (ops : List (Op α)) :
       | reset => rw [C07.sinceReset_snoc_reset]; rfl
   exact ⟨h, by rw [h, runUpd_n]⟩
 
+/-- (every carrier, any history) the message held by the model is the row -/
+theorem run_logMessage_eq_row (f : Fns α) (c : Cfg α) (ops : List (Op α)) :
+    ((BOCD.machine f c).run ops).logMessage = ((BOCD.machine f c).run ops).row :=
+  logMessage_eq_row f c (Machine.reachable_run _ _)
+
 theorem argmax_go_lt (ys : List α) : ∀ (best : α) (bi i : Nat), bi < i → argmax.go best bi i ys < i + ys.length := by
   induction ys with
   | nil => intro best bi i h; simpa [argmax.go] using h
@@ -552,6 +580,18 @@ theorem map_rule_lt (f : Fns α) (c : Cfg α) {s : State α} (hs : (BOCD.machine
   omega
 
 end Generic
+
+/-- **the repair is invisible in every field but the message, after ANY history** (ℝ, exact `logsumexp`): the
+model state after any interleaving of updates and resets is the ghost run (the step function before the repair, fed
+the values since the last reset) with the log-message shifted by the log-evidence. -/
+theorem sim_history (f : Fns ℝ) (hLSE : LSESpec f) (c : Cfg ℝ) (ops : List (Op ℝ)) :
+    (BOCD.machine f c).run ops = { BOCDU.runUpd f c (C07.sinceReset ops) with
+      logMessage := (BOCDU.runUpd f c (C07.sinceReset ops)).logMessage.map
+        (· - Real.log ((msg (BOCDU.runUpd f c (C07.sinceReset ops))).sum)) } := by
+  rw [(run_history f c ops).1]
+  exact sim_run f hLSE c _
+
+example := sim_history exFns exFns_spec (exCfg (1/4)) [.update 7, .reset, .update 1, .update 2]
 
 /-- non-vacuity of `map_rule_lt` / `run_history` (hypotheses satisfiable: `minN = 1 ≤ n = 1`) -/
 example (v : ℝ) := map_rule_lt exFns (exCfg (1/4)) (runUpd_reachable exFns (exCfg (1/4)) [v])
@@ -743,3 +783,8 @@ end Frouros.C08
 #print axioms Frouros.C08.meanAt_succ
 #print axioms Frouros.C08.conjugate_update
 #print axioms Frouros.C08.belief_zero
+-- C08n
+#print axioms Frouros.C08.message_normalised_lse
+#print axioms Frouros.C08.sim_run_lse
+#print axioms Frouros.C08.run_logMessage_eq_row
+#print axioms Frouros.C08.sim_history
